@@ -1,0 +1,125 @@
+//go:build verif
+// +build verif
+
+// Contracts for package cmem (checked by /verif/govc). Compiled only with -tags verif.
+// The counters are treated as contribution accumulators (C12): every contract states the exact
+// delta a call adds to Count/Size; MaxCount/MaxSize are high-water marks and unconstrained.
+
+package cmem
+
+import "unsafe"
+
+func forall(lo, hi int, p func(i int) bool) bool {
+	for i := lo; i < hi; i++ {
+		if !p(i) {
+			return false
+		}
+	}
+	return true
+}
+func all(x interface{}) bool   { return true }
+func elems(x interface{}) bool { return true }
+func fresh(x interface{}) bool { return true }
+func sameSlice(a, b []byte) bool {
+	if len(a) != len(b) || cap(a) != cap(b) {
+		return false
+	}
+	if cap(a) == 0 {
+		return true
+	}
+	return unsafe.Pointer(&a[:1][0]) == unsafe.Pointer(&b[:1][0])
+}
+
+// bytesEq: same length and content
+func bytesEq(a, b []byte) bool {
+	return len(a) == len(b) && forall(0, len(a), func(i int) bool { return a[i] == b[i] })
+}
+
+// cost charged to AllocRL for a buffer: only C-allocated buffers (Addr != 0) are counted
+func allocCount(addr uintptr) int64 {
+	if addr != 0 {
+		return 1
+	}
+	return 0
+}
+func allocSize(addr uintptr, cap_ int) int64 {
+	if addr != 0 {
+		return int64(cap_)
+	}
+	return 0
+}
+
+//@ func (rl *ResourceLimiter) AddSize
+//@   props C12
+//@   ints bv
+//@   modifies rl.Size, rl.MaxSize
+//@   ensures rl.Size == old(rl.Size)+int64(size)
+
+//@ func (rl *ResourceLimiter) SubSize
+//@   props C12
+//@   ints bv
+//@   modifies rl.Size
+//@   ensures rl.Size == old(rl.Size)-int64(size)
+
+//@ func (rl *ResourceLimiter) AddCount
+//@   props C12
+//@   ints bv
+//@   modifies rl.Count, rl.MaxCount
+//@   ensures rl.Count == old(rl.Count)+int64(count)
+
+//@ func (rl *ResourceLimiter) SubCount
+//@   props C12
+//@   ints bv
+//@   modifies rl.Count
+//@   ensures rl.Count == old(rl.Count)-int64(count)
+
+//@ func (rl *ResourceLimiter) AddSizeAndCount
+//@   props C12
+//@   ints bv
+//@   modifies rl.Size, rl.MaxSize, rl.Count, rl.MaxCount
+//@   ensures rl.Size == old(rl.Size)+int64(size) && rl.Count == old(rl.Count)+1
+
+//@ func (rl *ResourceLimiter) SubSizeAndCount
+//@   props C12
+//@   ints bv
+//@   modifies rl.Size, rl.Count
+//@   ensures rl.Size == old(rl.Size)-int64(size) && rl.Count == old(rl.Count)-1
+
+//@ func (rl *ResourceLimiter) IsZero
+//@   props C12
+//@   ints bv
+//@   ensures result0 == (rl.Count == 0 && rl.Size == 0)
+
+//@ func (arr *CArray) Alloc
+//@   props C12 C10
+//@   ints bv
+//@   assumed C.malloc and the unsafe slice-header construction: returns false or a fresh block of exactly size bytes
+//@   requires size >= 0
+//@   modifies arr.Body, arr.Addr, arr.Cap, AllocRL.Size, AllocRL.MaxSize, AllocRL.Count, AllocRL.MaxCount
+//@   ensures result0 ==> arr.Cap == size && len(arr.Body) == size && fresh(arr.Body)
+//@   ensures result0 ==> AllocRL.Count == old(AllocRL.Count)+allocCount(arr.Addr) && AllocRL.Size == old(AllocRL.Size)+allocSize(arr.Addr, size)
+//@   ensures !result0 ==> AllocRL.Count == old(AllocRL.Count) && AllocRL.Size == old(AllocRL.Size) && arr.Addr == 0
+
+//@ func (arr *CArray) Free
+//@   props C12 C10
+//@   ints bv
+//@   modifies arr.Body, arr.Addr, arr.Cap, AllocRL.Size, AllocRL.Count
+//@   ensures AllocRL.Count == old(AllocRL.Count)-allocCount(old(arr.Addr)) && AllocRL.Size == old(AllocRL.Size)-allocSize(old(arr.Addr), old(arr.Cap))
+//@   ensures old(arr.Addr) != 0 ==> arr.Addr == 0 && arr.Cap == 0 && arr.Body == nil
+//@   ensures old(arr.Addr) == 0 ==> arr.Addr == 0 && arr.Cap == old(arr.Cap) && sameSlice(arr.Body, old(arr.Body))
+
+//@ func (arr *CArray) Clear
+//@   props C12
+//@   ints bv
+//@   modifies arr.Body, arr.Addr
+//@   ensures arr.Addr == 0 && arr.Body == nil
+
+//@ func (arr *CArray) Copy
+//@   props C12 C01
+//@   ints bv
+//@   modifies AllocRL.Size, AllocRL.MaxSize, AllocRL.Count, AllocRL.MaxCount
+//@   ensures ok ==> len(arrNew.Body) == len(arr.Body)
+//@   ensures ok && arr.Addr == 0 ==> arrNew.Addr == 0 && arrNew.Cap == 0
+//@   ensures ok && arr.Addr != 0 ==> arrNew.Cap == len(arr.Body)
+//@   ensures ok ==> AllocRL.Count == old(AllocRL.Count)+allocCount(arrNew.Addr) && AllocRL.Size == old(AllocRL.Size)+allocSize(arrNew.Addr, arrNew.Cap)
+//@   ensures !ok ==> AllocRL.Count == old(AllocRL.Count) && AllocRL.Size == old(AllocRL.Size)
